@@ -155,7 +155,7 @@ static std::atomic<long> g_done{0};
 
 // watchdog: a stop() that has not come back after this long is reported as such (Stop.t1 = -1) and the probe
 // gives up; without it a logger thread that never terminates would only show as a driver timeout
-static const long stop_patience_ms = 30000;
+static const long stop_patience_ms = 60000;
 static std::atomic<long> g_stop_since{0};     // steady-clock ms at which stop() was entered, 0 = not inside
 static std::atomic<long> g_stop_t0{-1};
 static std::string g_cur_path;
@@ -400,7 +400,11 @@ static void run_sched(const std::string& dir, const std::vector<std::string>& t)
 	std::vector<std::string> parks;
 	{
 		std::unique_lock<std::mutex> lk(g.m);
-		const bool ok = wait_for(lk, 500, [] { return g.cparked || g.cexited; });
+		// a freshly created thread can take seconds to get going on a busy machine; a logger whose thread has no
+		// park position at all (two executions in a row) is not waited for any more
+		static int unsteerable = 0;
+		const bool ok = wait_for(lk, unsteerable >= 2 ? 50 : 10000, [] { return g.cparked || g.cexited; });
+		unsteerable = ok ? 0 : unsteerable + 1;
 		parks.push_back(!ok ? "timeout" : g.cexited ? "done" : g.cwhere);
 	}
 	std::vector<int> nextk(np + 1, 0);
@@ -416,7 +420,7 @@ static void run_sched(const std::string& dir, const std::vector<std::string>& t)
 			g.cv.notify_all();
 		});
 		std::unique_lock<std::mutex> lk(g.m);
-		wait_for(lk, 500, [] { return g.xparked || g.xdone; });
+		wait_for(lk, 3000, [] { return g.xparked || g.xdone; });
 	};
 	auto finish_stop = [&]() {
 		{
@@ -452,7 +456,7 @@ static void run_sched(const std::string& dir, const std::vector<std::string>& t)
 			g.crelease = true;
 			g.cparked = false;
 			g.cv.notify_all();
-			const bool ok = wait_for(lk, 500, [] { return g.cparked || g.cexited; });
+			const bool ok = wait_for(lk, 3000, [] { return g.cparked || g.cexited; });
 			parks.push_back(!ok ? "timeout" : g.cexited ? "done" : g.cwhere);
 		}
 		else if (s[0] == 'J')
